@@ -32,8 +32,52 @@ K_FUTURE = "C13/future-annotations/long-annotation-ignored"
 
 # ----------------------------------------------------------------------------- generation
 
+UNION_MEMBER_POOL = [
+    {"t": "num", "k": "Integer", "s": "Any"}, {"t": "num", "k": "Float", "s": "Any"}, {"t": "str"}, {"t": "bool"},
+    {"t": "seqeach", "k": "list", "item": {"t": "num", "k": "Integer", "s": "Any"}, "sz": [None, None], "uniq": False},
+    {"t": "seqeach", "k": "list", "item": {"t": "str"}, "sz": [None, None], "uniq": False},
+    {"t": "mapkv", "kf": {"t": "str"}, "vf": {"t": "num", "k": "Integer", "s": "Any"}, "sz": [None, None]},
+    {"t": "set", "imm": False, "item": {"t": "str"}, "sz": [None, None]},
+    {"t": "tuple", "items": [{"t": "num", "k": "Integer", "s": "Any"}, {"t": "str"}], "uniq": False},
+    {"t": "seqany", "k": "list", "sz": [None, None], "uniq": False}, {"t": "mapany", "sz": [None, None]},
+    {"t": "num", "k": "Integer", "s": "Positive"}, {"t": "num", "k": "Integer", "s": "Any", "min": ("int", 1)},
+    {"t": "str", "min": 2}, {"t": "ref", "cls": "Inner"}, {"t": "ref", "cls": "Other"},
+]
+
+
+def gen_union_field(rnd, ctx, max_depth):
+    """An AnyOf of 2-4 pairwise different members, with None at a random position (70%): the declarations that
+    have typing spellings (Union, Optional, nested Unions) next to the AnyOf ones."""
+    n = rnd.choice([2, 2, 3, 3, 4])
+    with_none = rnd.random() < 0.7
+    k = n - 1 if with_none else n
+    members = []
+    seen = set()
+    for _ in range(40):
+        if len(members) == k:
+            break
+        if rnd.random() < 0.75:
+            g = dict(rnd.choice(UNION_MEMBER_POOL))
+        else:
+            g = simplify(rnd, G.gen_field(rnd, 1, classes=ctx.class_names(), max_depth=max_depth))
+            if g["t"] == "none" or not P.spellable(g):
+                continue
+        key = repr(P.norm_field(g))
+        if key in seen:
+            continue
+        seen.add(key)
+        members.append(g)
+    if with_none:
+        members.insert(rnd.randrange(len(members) + 1), {"t": "none"})
+    return {"t": "anyof", "fs": members}
+
+
 def gen_semantic_field(rnd, ctx, max_depth):
     """A semantic field, biased towards declarations that have several spellings."""
+    if rnd.random() < 0.22:
+        f = gen_union_field(rnd, ctx, max_depth)
+        if P.spellable(f) and len(P.forms(f, "general", rnd)) >= 2:
+            return f
     for _ in range(30):
         f = G.gen_field(rnd, 0, classes=ctx.class_names(), max_depth=max_depth)
         if rnd.random() < 0.55:
@@ -107,8 +151,9 @@ def decl_forms(fd, rnd, ctx):
         self_marking = s[0] in ("union", "optional") and has_none_member(f)
         if self_marking and not opt:
             continue                          # would make the field optional: not a spelling of this member
-        listed = opt and not (self_marking and rnd.random() < 0.6)
-        out.append({"annot": True, "ty": s, "eq": d, "kw": None, "opt": listed})
+        out.append({"annot": True, "ty": s, "eq": d, "kw": None, "opt": opt})
+        if self_marking:                      # the typing spelling marks the field optional by itself
+            out.append({"annot": True, "ty": s, "eq": d, "kw": None, "opt": False})
         if d is not None and s[0] in ("inst", "ctor1", "ctorN") and f["t"] in DEFAULT_OK_CLASSES:
             out.append({"annot": True, "ty": s, "eq": None, "kw": d, "opt": opt})
     for s in fieldy:
@@ -171,6 +216,105 @@ def gen_class_case(rnd, idx, ctx, max_depth):
             ds[i] = x
             variants.append({"decls": ds, "changed": i})
     return {"idx": idx, "members": members, "variants": variants}
+
+
+# ----------------------------------------------------------------------------- deterministic lattices
+
+INT_F = {"t": "num", "k": "Integer", "s": "Any"}
+
+
+def _dedup_variants(names, variants):
+    seen = set()
+    out = []
+    for v in variants:
+        key = tuple((decl_line(n, d), d["opt"]) for n, d in zip(names, v["decls"]))
+        if key not in seen:
+            seen.add(key)
+            out.append(v)
+    return out
+
+
+def optional_lattice(ctx, idx0, tier):
+    """Every union SHAPE, independently of VERIF_SEED: arity 2-4 x position of None (each, or no None) x a sliding
+    window over UNION_MEMBER_POOL; every typing spelling typing flattens to the same Union (Union as written,
+    Optional[T], Optional[Union[...]], every single nested group), with aligned member spellings (builtin name /
+    Field class / Field instance ...), each listed and NOT listed in _optional, against AnyOf[...] / AnyOf(fields=[...])
+    with the field listed in _optional; a second, required member `b: int` makes absence of `a` observable."""
+    quick = tier == "quick"
+    rnd = random.Random(20240613)             # children of composite members only; independent of VERIF_SEED
+    pool = UNION_MEMBER_POOL
+    steps = {2: 2 if quick else 1, 3: 3 if quick else 2, 4: 5 if quick else 3}
+    n_align = 2 if quick else 4
+    cases = []
+    for n in (2, 3, 4):
+        for p in list(range(n)) + [None]:
+            k = n if p is None else n - 1
+            for w in range(0, len(pool), steps[n]):
+                mems = [pool[(w + i * (1 + w % 3)) % len(pool)] for i in range(k)]
+                if len({repr(P.norm_field(g)) for g in mems}) < k:
+                    continue
+                fs = list(mems)
+                if p is not None:
+                    fs.insert(p, {"t": "none"})
+                f = {"t": "anyof", "fs": fs}
+                opt = p is not None
+                none = ("none",)
+                mforms = [[none] if g["t"] == "none" else P.forms(g, "unionmember", rnd) for g in fs]
+                fforms = [[("fcls", "NoneField")] if g["t"] == "none" else P.forms(g, "fieldy", rnd) for g in fs]
+                b_decl = {"annot": True, "ty": ("name", "int"), "eq": None, "kw": None, "opt": False}
+                mk = lambda annot, ty, o: {"annot": annot, "ty": ty, "eq": None, "kw": None, "opt": o}
+                a_decls = []
+                for j in range(min(n_align, max(len(x) for x in mforms))):
+                    mem = [x[j % len(x)] for x in mforms]
+                    fmem = [x[j % len(x)] for x in fforms]
+                    a_decls.append(mk(True, ("sub", "AnyOf", mem), opt))
+                    a_decls.append(mk(False, ("sub", "AnyOf", mem), opt))
+                    a_decls.append(mk(True, ("ctorN", "AnyOf", fmem, P.NO_SZ, False, None), opt))
+                    a_decls.append(mk(False, ("ctorN", "AnyOf", fmem, P.NO_SZ, False, None), opt))
+                    for shape in P.union_shapes(mem):
+                        a_decls.append(mk(True, shape, opt))
+                        if opt:
+                            a_decls.append(mk(True, shape, False))
+                    if n == 2 and p is None and fs[0]["t"] != "ref":
+                        oforms = P.forms(fs[1], "orright", rnd)
+                        a_decls.append(mk(True, ("or", fmem[0], oforms[j % len(oforms)]), False))
+                a_decls = [d for d in a_decls if union_kept(d["ty"], ctx)]
+                if len(a_decls) < 2:
+                    continue
+                members = [{"name": "a", "f": f, "opt": opt, "default": None},
+                           {"name": "b", "f": dict(INT_F), "opt": False, "default": None}]
+                variants = [{"decls": [a_decls[0], b_decl], "changed": None}]
+                variants += [{"decls": [d, b_decl], "changed": 0} for d in a_decls[1:]]
+                cases.append({"idx": idx0 + len(cases), "members": members,
+                              "variants": _dedup_variants(["a", "b"], variants), "lattice": "optional"})
+    return cases
+
+
+DEFAULT_LATTICE_FIELDS = [
+    {"t": "num", "k": "Integer", "s": "Any"}, {"t": "num", "k": "Integer", "s": "Any", "min": ("int", 5)},
+    {"t": "num", "k": "Float", "s": "Any"}, {"t": "num", "k": "Float", "s": "Any", "max": ("int", -1)},
+    {"t": "num", "k": "Number", "s": "Positive"}, {"t": "num", "k": "Integer", "s": "NonNegative"},
+    {"t": "str"}, {"t": "str", "min": 2}, {"t": "str", "max": 1}, {"t": "bool"},
+]
+DEFAULT_LATTICE_VALUES = [0, 0.0, "", False, 1, 5, -3, 2.5, "ab", True]
+
+
+def default_lattice(ctx, idx0, tier):
+    """Every scalar field of DEFAULT_LATTICE_FIELDS x every default of DEFAULT_LATTICE_VALUES (falsy / truthy, valid /
+    ill-typed / out of range), in every declaration form: `a: T = d`, `a: T(default=d)`, `a = T(default=d)` over every
+    spelling of T.  Independent of VERIF_SEED."""
+    rnd = random.Random(77)
+    cases = []
+    for f in DEFAULT_LATTICE_FIELDS:
+        for dv in DEFAULT_LATTICE_VALUES:
+            m = {"name": "a", "f": dict(f), "opt": False, "default": E.reify(dv)}
+            forms = decl_forms(m, rnd, ctx)
+            if len(forms) < 2:
+                continue
+            variants = [{"decls": [forms[0]], "changed": None}] + [{"decls": [x], "changed": 0} for x in forms[1:]]
+            cases.append({"idx": idx0 + len(cases), "members": [m], "variants": _dedup_variants(["a"], variants),
+                          "lattice": "default"})
+    return cases
 
 
 _REF_CACHE = {}
@@ -382,6 +526,19 @@ def decl_sig(dc):
     return s
 
 
+def union_stat(d):
+    """Shape of a top-level typing Union/Optional declaration: arity after flattening, position of None,
+    nesting, whether the field is also listed in _optional."""
+    s = d["ty"]
+    if s[0] not in ("union", "optional") or not d["annot"]:
+        return None
+    leaves = P.flat_leaves(s)
+    pos = [i for i, a in enumerate(leaves) if a == ("none",)]
+    where = "absent" if not pos else ("last" if pos == [len(leaves) - 1] else ("first" if pos == [0] else "middle"))
+    nested = any(a[0] in ("union", "optional") for a in (s[1] if s[0] == "union" else [s[1]]))
+    return "%s:arity=%d,none=%s,nested=%s,listed=%s" % (s[0], len(leaves), where, nested, d["opt"])
+
+
 def falsy(r):
     try:
         return not G.unreify(r)
@@ -407,6 +564,12 @@ def attribute(aspect, detail, d_base, d_var, o_base, o_var, name):
         o_t = o_base if "tuple-single-class" in tb else o_var
         if o_t["def"] == "ok" and o_t["objs"].get(name) == ("defective",):
             return K_TUPLE
+    if aspect == "required" and (union_stat(d_base) or union_stat(d_var)):
+        # which fields a typing Union/Optional marks optional depends on the SHAPE of the union only
+        side = lambda d: union_stat(d) or (("annot:" if d["annot"] else "assign:") + P.top_form(d["ty"])
+                                           + ("+_optional" if d["opt"] else ""))
+        a, b = sorted([side(d_base), side(d_var)])
+        return "C13/required/typing-optional/%s~%s" % (a, b)
     a, b = sorted([decl_sig(d_base), decl_sig(d_var)])
     return "C13/%s/%s~%s" % (aspect, a, b)
 
@@ -438,21 +601,28 @@ def run_class_cases(rep, cases, ctx, workdir, rnd, per_field):
                         if o["def"] == "ok":
                             o["beh"] = [("raise", "TypeError|ValueError") if b[0] == "raise" and b[1] in
                                         ("TypeError", "ValueError") else b for b in o["beh"]]
-            rep.stat("class-variants", "baseline-valid:%s" % base_ok)
+            stream = "class-variants" if not c.get("lattice") else "lattice:" + c["lattice"]
+            rep.stat(stream, "baseline-valid:%s" % base_ok)
             c["obs"] = obs
             c["cands"] = cands
             base = obs[0][0]
             nv = len(c["variants"])
-            rep.count("class-variants", 2 * nv, tuple(decl_sig(d) for d in c["variants"][0]["decls"]))
+            rep.count(stream, 2 * nv, tuple(decl_sig(d) for d in c["variants"][0]["decls"]))
             rep.count("behaviour", 2 * nv * len(cands))
-            rep.stat("class-variants", "definition:" + base["def"])
+            rep.stat(stream, "definition:" + base["def"])
+            for v in c["variants"]:
+                for i in ([v["changed"]] if v["changed"] is not None else range(len(v["decls"]))):
+                    us = union_stat(v["decls"][i])
+                    if us:
+                        rep.stat("typing-unions", us)
+                        rep.count("typing-unions", 2, us)
             # semantic expectation of the base variant
             check_semantic(rep, c, base)
             for vi in range(1, nv):
                 v = c["variants"][vi]
                 i = v["changed"]
                 aspect, detail = first_difference(base, obs[0][vi])
-                rep.stat("class-variants", "form:" + P.top_form(v["decls"][i]["ty"]))
+                rep.stat(stream, "form:" + P.top_form(v["decls"][i]["ty"]))
                 if aspect:
                     key = attribute(aspect, detail, c["variants"][0]["decls"][i], v["decls"][i], base, obs[0][vi],
                                     names[i])
@@ -574,24 +744,22 @@ def _eval_ns(ctx):
 
 
 def union_kept(s, ctx):
-    """typing kept every Union/Optional in s as written (no flattening / de-duplication)."""
+    """Every typing Union/Optional in s denotes, after typing's FLATTENING of nested Unions, exactly the members
+    written, in order: typing de-duplicated nothing (checked on the real typing object) and the model's notion of
+    object identity would de-duplicate nothing either (typing.List[int] vs list[int], see spellgen.model_key)."""
     ns = _eval_ns(ctx)
+    if not P.typing_cache_stable(s):
+        return False
     for n in P.walk(s):
         if n[0] in ("union", "optional"):
+            if not P.model_nodup(n):
+                return False
             try:
                 obj = eval(P.render(n), ns)
             except Exception:  # noqa
                 return True       # evaluation itself raises: compared as an outcome
-            want = len(n[1]) if n[0] == "union" else 2
-            if len(getattr(obj, "__args__", ())) != want:
+            if len(getattr(obj, "__args__", ())) != len(P.flat_leaves(n)):
                 return False
-            import typing
-            for m in (n[1] if n[0] == "union" else [n[1]]):
-                try:
-                    if typing.get_origin(eval(P.render(m), ns)) is typing.Union:
-                        return False
-                except Exception:  # noqa
-                    pass
     return True
 
 
@@ -718,6 +886,8 @@ def run(rep, tier):
         os.remove(old)
     try:
         cases = [gen_class_case(rnd, i, ctx, max_depth) for i in range(n_classes)]
+        cases += optional_lattice(ctx, len(cases), tier)
+        cases += default_lattice(ctx, len(cases), tier)
         batch = 35
         for s0 in range(0, len(cases), batch):
             run_class_cases(rep, cases[s0:s0 + batch], ctx, workdir, rnd, per_field)
